@@ -40,7 +40,8 @@ class _Proxy:
 
 GENVAR_LIMIT = 250
 # decision points recorded for the models of lean/Heph/Model/Gen*.lean (caps per program, the totals are counted)
-GP_LIMITS = {"sig": 300, "fcr": 60, "fref": 60, "new": 80, "subclass": 80}
+GP_LIMITS = {"sig": 300, "fcr": 60, "fref": 60, "new": 80, "subclass": 80, "mcd": 40, "mcls": 60, "gmc": 40,
+             "post": 300}
 
 
 def _wrap_generator(state, G):
@@ -161,7 +162,8 @@ def _attr_mode(get_attr_type):
 
 def _wrap_genpoints(state, gen_cls):
     names = ["_is_sigtype_compatible", "_gen_func_call_ref", "_get_matching_objects", "_gen_func_ref",
-             "_get_matching_function_declarations", "gen_new", "_get_subclass"]
+             "_get_matching_function_declarations", "gen_new", "_get_subclass", "_get_matching_class_decls",
+             "_is_signature_compatible", "_get_matching_class", "_gen_matching_class"]
     orig = {n: getattr(gen_cls, n) for n in names}
     state["gp_orig"] = orig
     fs = state["fs"]
@@ -201,7 +203,107 @@ def _wrap_genpoints(state, gen_cls):
             _gp_fresh(state)
             top["objs"] = [{"t": _gp_add(state, o.attr_decl.get_type()), "name": o.attr_decl.name,
                             "inst": _gp_map(state, o.receiver_inst)} for o in objs]
+        func_ref = rest[0] if rest else kw.get("func_ref", False)
+        signature = rest[1] if len(rest) > 1 else kw.get("signature", False)
+        for o in objs:
+            _post(self, "_get_matching_objects:" + attr_name, o.attr_decl, etype, o.receiver_inst,
+                  bool(signature and not func_ref), subtype, "last" if (not signature and func_ref) else "whole")
         return objs
+
+    def _post(self, src, attr, etype, m, sig, sub, mode):
+        """a returned (attribute, maps): the condition the caller relies on, evaluated by the model"""
+        if not _gp_room(state, "post"):
+            return
+        _gp_fresh(state)
+        mm = _gp_map(state, m)
+        if mm is None or attr.get_type() is None:
+            return
+        state["gp"]["post"].append({"src": src, "attr": _gp_attr(state, self, attr, bool(sig)),
+                                    "etype": _gp_add(state, etype), "m": mm, "sig": bool(sig), "sub": bool(sub),
+                                    "mode": mode})
+
+    def _is_signature_compatible(self, attr, etype, check_signature, subtype):
+        top = fs[-1] if fs else None
+        out = orig["_is_signature_compatible"](self, attr, etype, check_signature, subtype)
+        if top is not None and top.get("k") == "mcd" and top["maps"] is not None:
+            is_comb, tvm = out
+            if tvm is None:
+                top["maps"].append(None)           # answered (False, None) before the compatibility test
+            else:
+                m = _gp_map(state, tvm)
+                if m is None:
+                    top["bad"] = True
+                top["maps"].append(m)
+        return out
+
+    def _get_matching_class_decls(self, etype, subtype, attr_name, signature=False):
+        top = fs[-1] if fs else None
+        rec = None
+        if _gp_room(state, "mcd"):
+            _gp_fresh(state)
+            classes = []
+            for c in self.context.get_classes(self.namespace).values():
+                attrs = []
+                for attr in self._get_class_attributes(c, attr_name):
+                    if not attr.get_type():
+                        attrs.append({"name": attr.name, "has_t": False})
+                    else:
+                        attrs.append(dict(_gp_attr(state, self, attr, bool(signature)), has_t=True))
+                classes.append({"name": c.name, "attrs": attrs})
+            rec = {"etype": _gp_add(state, etype), "void": _gp_add(state, self.bt_factory.get_void_type()),
+                   "sub": bool(subtype), "sig": bool(signature), "self": self.namespace[-1], "classes": classes,
+                   "attr_name": attr_name}
+        frame = {"k": "mcd", "maps": [] if rec is not None else None, "bad": False}
+        fs.append(frame)
+        try:
+            out = orig["_get_matching_class_decls"](self, etype, subtype=subtype, attr_name=attr_name,
+                                                    signature=signature)
+        finally:
+            fs.pop()
+        if rec is not None and not frame["bad"]:
+            rec["maps"] = frame["maps"]
+            rec["out"] = [[c.name, a.name, _gp_map(state, m)] for c, m, a in out]
+            if all(o[2] is not None for o in rec["out"]):
+                state["gp"]["mcd"].append(rec)
+        if top is not None and top.get("k") == "mcls":
+            top["cands"] = [[c.name, a.name] for c, m, a in out]
+        return out
+
+    def _get_matching_class(self, etype, subtype, attr_name, signature=False):
+        frame = {"k": "mcls", "cands": None}
+        fs.append(frame)
+        try:
+            out = orig["_get_matching_class"](self, etype, subtype=subtype, attr_name=attr_name, signature=signature)
+        finally:
+            fs.pop()
+        if _gp_room(state, "mcls") and frame["cands"] is not None:
+            state["gp"]["mcls"].append({
+                "cands": frame["cands"], "sub": bool(subtype), "sig": bool(signature), "attr_name": attr_name,
+                "out": None if out is None else [getattr(out.receiver_t, "name", None), out.attr_decl.name]})
+        if out is not None:
+            _post(self, "_get_matching_class:" + attr_name, out.attr_decl, etype,
+                  dict(out.receiver_inst or {}, **(out.attr_inst or {})), bool(signature), subtype, "whole")
+        return out
+
+    def _gen_matching_class(self, etype, attr_name, not_void=False, signature=False):
+        fs.append(_EXPR_FRAME)
+        try:
+            out = orig["_gen_matching_class"](self, etype, attr_name, not_void=not_void, signature=signature)
+        finally:
+            fs.pop()
+        if _gp_room(state, "gmc"):
+            if out is None:
+                state["gp_n"]["gmc_none"] = state["gp_n"].get("gmc_none", 0) + 1
+            else:
+                _gp_fresh(state)
+                cls = self.context.get_classes(self.namespace).get(getattr(out.receiver_t, "name", None))
+                m = _gp_map(state, out.receiver_inst)
+                if cls is not None and m is not None:
+                    state["gp"]["gmc"].append({
+                        "attrs": [_gp_attr(state, self, a, bool(signature)) for a in getattr(cls, attr_name)],
+                        "etype": _gp_add(state, etype), "m": m, "sig": bool(signature), "attr_name": attr_name,
+                        "out": out.attr_decl.name})
+        return out
 
     def _gen_func_call_ref(self, etype, only_leaves=False, subtype=False):
         rec = None
@@ -237,6 +339,11 @@ def _wrap_genpoints(state, gen_cls):
                                  m=_gp_map(state, dict(f.receiver_inst or {}, **(f.attr_inst or {}))),
                                  recv=getattr(f.receiver_expr, "name", None))
                             for f in funcs]
+        signature = rest[0] if rest else kw.get("signature", False)
+        for f in funcs:
+            if f.receiver_expr is None:          # the others were reported by _get_matching_objects
+                _post(self, "_get_matching_function_declarations", f.attr_decl, etype,
+                      dict(f.receiver_inst or {}, **(f.attr_inst or {})), bool(signature), subtype, "whole")
         return funcs
 
     def _gen_func_ref(self, etype, only_leaves=False):
